@@ -91,7 +91,8 @@ def check(ck):
     for n in g.live_nodes():
         for c in node_calls(n):
             if call_name(c) in DECODERS and not any(sub is c for sub in ast.walk(loop)):
-                t = prov.origin(g, n, c.args[0]) if c.args else prov.origin(g, n, c.func.value)
+                t = prov.origin(g, n, c.func.value) if (call_name(c) == "decode" and isinstance(c.func, ast.Attribute)) else (
+                    prov.origin(g, n, c.args[0]) if c.args else prov.origin(g, n, c.func.value))
                 if t[0] == "call" and t[1][0] == "attr" and t[1][2] == "join":
                     dec_after.append((n, c, t))
     ck.require(len(dec_after) == 1, "C17.3", "%s: one decode of the joined bytes" % q.fn(fp), "from_bytes(b''.join(chunks))",
